@@ -26,11 +26,11 @@ def _marks(out, marker):
     return [(int(a), b) for a, b in re.findall(r'<<"%s", (\d+), "([^"]*)">>' % marker, out)]
 
 
-def _judge(ctx, spec, trace, nlines, abs_cfg, conf_cfg, timeout):
+def _judge(ctx, spec, trace, nlines, abs_cfg, conf_cfg, timeout, conf_module=None):
     mon = ctx.tlc(spec, abs_cfg, dfs=True, files={"trace.ndjson": trace}, timeout=timeout, heap="12g")
     if mon.depth != nlines + 1:
         raise vlib.Infra("monitor did not consume the whole trace (%d of %d)" % (mon.depth - 1, nlines))
-    conf = ctx.tlc(spec, conf_cfg, dfs=True, files={"trace.ndjson": trace}, timeout=timeout, heap="12g", expect_fail=True)
+    conf = ctx.tlc(spec, conf_cfg, module=conf_module, dfs=True, files={"trace.ndjson": trace}, timeout=timeout, heap="12g", expect_fail=True)
     drift = _marks(conf.out, "DRIFT")
     drift_note = None
     if conf.error or conf.violated:
@@ -123,5 +123,110 @@ def run(ctx, pid):
     return run_c37(ctx, pid)
 
 
+# ------------------------------------------------------------------------------------------- C37
+BACKOFF = "BackoffNotOnWire"
+
+
+def _is_backoff_drop(row):
+    """The specific witness of known finding BackoffNotOnWire: the local supervisor has an exponential
+    backoff and the copy has none at all."""
+    a, b = row["local"]["sup"], row["copy"]["sup"]
+    return a["initial"] > 0 and b["initial"] == 0 and b["maxDelay"] == 0 and b["reset"] == 0
+
+
 def run_c37(ctx, pid):
-    raise vlib.Infra("C37 not built yet")
+    spec = "SpawnConfig"
+    quick = ctx.quick
+    known = ctx.is_known(BACKOFF)
+    # 0. the model exhibits the recorded defect (keeps the Defects branch honest)
+    d = ctx.tlc(spec, "MC_SpawnConfig_defect.cfg", module="MC_SpawnConfig", deadlock_check=False, timeout=600, expect_fail=True)
+    if d.violated not in ("InvRelocation", "InvRemoteSpawn"):
+        raise vlib.Infra("Defects={%s} should violate the round-trip invariants in the model, got %r" % (BACKOFF, d.violated))
+    # 1. the repaired design keeps every configuration over both paths + case enumeration (one exhaustive TLC run)
+    cases, mc = _cases(ctx, spec, "MC_SpawnConfig.cfg" if quick else "MC_SpawnConfig_t.cfg", "MC_SpawnConfig",
+                       600 if quick else 2400, workers=4 if quick else 6)
+    if len(cases) != mc.distinct - 1 or len(cases) < 5000:
+        raise vlib.Infra("case enumeration incomplete: %d cases for %d states" % (len(cases), mc.distinct))
+    ctx.rng.shuffle(cases)
+    cfile = ctx.tmp("cases.ndjson")
+    vlib.write_ndjson(cfile, cases)
+    ctx.log("model: %d configurations, both wire paths preserve them in the repaired design" % len(cases))
+
+    # 2. real actors, real wire
+    exe = ctx.build("addrcodec")
+    trace = ctx.tmp("trace.ndjson")
+    p = ctx.run([exe, "spawn", cfile, trace], timeout=1200)
+    stats = json.loads(p.stdout.strip().splitlines()[-1])
+    nlines = stats["events"]
+    n_reloc_expected = sum(1 for c in cases if c["relocatable"])
+    if stats["remote"] != len(cases) or stats["relocate"] != n_reloc_expected:
+        raise vlib.Infra("driver executed %d remote / %d relocate of %d / %d" % (stats["remote"], stats["relocate"], len(cases), n_reloc_expected))
+
+    # 3. TLC judges the recording
+    mism, drift, drift_note = _judge(ctx, spec, trace, nlines, "Trace_SpawnConfigAbs.cfg",
+                                     "Trace_SpawnConfig_asfound.cfg" if known else "Trace_SpawnConfig.cfg", 1800 if quick else 3000,
+                                     conf_module="Trace_SpawnConfig")
+    rows = vlib.read_ndjson(trace)
+    known_lines, bad = [], {}
+    for line, tag in mism:
+        r = rows[line - 1]
+        if tag == "sup.backoff" and known and r["err"] == "" and _is_backoff_drop(r):
+            known_lines.append(line)
+        else:
+            bad.setdefault(line, []).append(tag)
+    if known_lines:
+        r = rows[known_lines[0] - 1]
+        ctx.report_known(BACKOFF, "%d of %d copies lost the supervisor's exponential backoff (e.g. %s path: local initial/max/reset = %d/%d/%d ms, copy 0/0/0)"
+                         % (len(known_lines), nlines, r["path"], r["local"]["sup"]["initial"], r["local"]["sup"]["maxDelay"], r["local"]["sup"]["reset"]))
+
+    def key(c):
+        return json.dumps(c, sort_keys=True)
+
+    def nontrivial(c):
+        n = int(c["sup"]["set"]) + int(c["pass"]["kind"] != "none") + int(c["reent"]["set"]) + int(c["stash"]) + int(c["role"]["set"]) \
+            + int(len(c["deps"]) > 0) + int(c["initTimeout"] > 0)
+        return n >= 2
+    cov = {
+        "evaluations": nlines, "distinct_nontrivial": len({key(c) for c in cases if nontrivial(c)}),
+        "rule": "TLC enumerates the full product of the choice sets of MC_SpawnConfig.tla (supervisor: absent or strategy x directive rules "
+                "x retry x backoff; passivation; reentrancy; stash; role; dependencies; init timeout; relocatable); every configuration is "
+                "spawned for real and carried over the remote-spawn path (TCP loopback) and, when relocatable, over the relocation path "
+                "(toSerialize -> proto bytes -> wireSpawnOptions); evaluations = recorded (configuration, path) pairs; non-trivial = "
+                "configurations setting at least two of the seven option groups (distinct configurations counted)",
+        "samples": [{"path": r["path"], "cfg": r["cfg"], "local": r["local"], "copy": r["copy"]} for r in rows[:2]],
+        "exhaustive": True, "states": ctx.states()[0], "transitions": ctx.states()[1],
+        "configurations": len(cases), "remote_spawn_pairs": stats["remote"], "relocation_pairs": stats["relocate"],
+        "driver_errors": stats["errors"], "monitor_mismatches": len(mism), "known_finding_lines": len(known_lines),
+        "conformance_drift": drift_note, "drift_lines": len(drift),
+        "conformance_model": "as found (Defects={BackoffNotOnWire})" if known else "repaired (Defects={})",
+        "model_defect_branch_checked": "Defects={BackoffNotOnWire} violates %s in the model (expected)" % d.violated,
+    }
+    assumptions = ["the spec contributes the domain, the abstraction of what is observable on a PID and a transcription of the codec; "
+                   "it is not a behavioural model (level: exploration)",
+                   "observation = the verif-tag projection VerifObserveSpawn of the PID's fields (supervisor incl. backoff and directive table, "
+                   "passivation strategy, reentrancy state, stash, role, dependencies with their serialized payload, init-timeout override, relocatable)",
+                   "relocation is exercised from toSerialize to wireSpawnOptions+Spawn on a second node (the cluster registry around "
+                   "recreateActorFromWire is not started); remote spawn runs the real client, TCP loopback and server handler",
+                   "singleton, reliable-delivery and mailbox options are outside the property's list and not enumerated",
+                   "trusted: TLC, the JSON trace I/O, the shim's field projection"]
+    if bad:
+        lines = sorted(bad)[:50]
+        snippet = ctx.tmp("violation.ndjson")
+        vlib.write_ndjson(snippet, [dict(rows[l - 1], _line=l, _components=bad[l]) for l in lines])
+        rp = ctx.save_replay("seed%d" % ctx.seed, snippet)
+        ctx.evidence("exploration", cov, assumptions, violations=len(bad))
+        l0 = lines[0]
+        r = rows[l0 - 1]
+        detail = r["err"] if r["err"] else "local %s vs copy %s" % (json.dumps({k: r["local"].get(k) for k in _components(bad[l0])}),
+                                                                   json.dumps({k: r["copy"].get(k) for k in _components(bad[l0])}))
+        raise vlib.Violation(pid, rp, "monitor: component(s) %s differ after the %s path for configuration %s: %s; %d (configuration, path) pairs fail"
+                             % (",".join(bad[l0]), r["path"], json.dumps(r["cfg"]), detail, len(bad)))
+    if drift_note:
+        ctx.log("conformance drift (not a verdict): " + drift_note)
+    ctx.evidence("exploration", cov, assumptions)
+
+
+def _components(tags):
+    m = {"sup.strategy": "sup", "sup.retry": "sup", "sup.backoff": "sup", "sup.directives": "sup", "passivation": "pass",
+         "reentrancy": "reent", "dependencies": "depsPayload"}
+    return sorted({m.get(t, t) for t in tags if t != "error"})
